@@ -234,6 +234,36 @@ Proof.
   - apply exec_call_never_panics.
 Qed.
 
+(* a bare command name: whatever is started is the file exec.LookPath found, and
+   it passed the check in the state of that step; nothing is started otherwise *)
+Lemma exec_bare_ran s l q f u g m :
+  exec_bare s l q = Ran f u g m ->
+  exists q', q = Some q' /\ eval_symlinks s q' = RFile f u g m /\ root_controlled u g m.
+Proof.
+  unfold exec_bare. destruct q as [q'|].
+  - intros R. apply exec_call_ran in R. exists q'. tauto.
+  - destruct (check_file s l); discriminate.
+Qed.
+
+Lemma exec_bare_never_panics s l q : exec_bare s l q <> Panicked.
+Proof.
+  unfold exec_bare. destruct q as [q'|]; [apply exec_call_never_panics|].
+  destruct (check_file s l) eqn:C; try discriminate. exfalso. eapply check_file_never_panics. exact C.
+Qed.
+
+Lemma every_call_bare s0 ops k api l q :
+  nth_error ops k = Some (OpExecBare api l q) ->
+  let s := state_at s0 ops k in
+  nth_error (run s0 ops) k = Some (EvCall (exec_bare s l q))
+  /\ (forall f u g m, exec_bare s l q = Ran f u g m ->
+        exists q', q = Some q' /\ eval_symlinks s q' = RFile f u g m /\ root_controlled u g m)
+  /\ exec_bare s l q <> Panicked.
+Proof.
+  intros H s. split; [apply (run_nth s0 ops k _ H)|]. split.
+  - intros f u g m R. now apply exec_bare_ran in R.
+  - apply exec_bare_never_panics.
+Qed.
+
 (* ---- the configuration file ---- *)
 Lemma config_file_rule c s path :
   has_cmd c = true -> validate c s path = VOk -> allowed_path s path.
